@@ -713,17 +713,8 @@ func (m *machine) loadCell(c *cell) AV {
 		}
 		return avStruct{c}
 	}
-	if seq, ok := m.h.Sequence[c.sym]; ok && c.sym != "" && !c.written {
-		// a flag another goroutine flips: successive reads see the listed values, the last one for ever
-		if m.nseq == nil {
-			m.nseq = map[string]int{}
-		}
-		i := m.nseq[c.sym]
-		m.nseq[c.sym] = i + 1
-		if i >= len(seq) {
-			i = len(seq) - 1
-		}
-		return avBool{seq[i]}
+	if v, ok := m.sequenced(c); ok {
+		return v
 	}
 	if !c.have {
 		if c.sym != "" {
@@ -1933,6 +1924,9 @@ func (m *machine) atomicIntrinsic(target *ssa.Function, args []AV) ([]AV, bool) 
 		return nil, false
 	}
 	load := func() AV {
+		if v, ok := m.sequenced(c); ok {
+			return v
+		}
 		if !c.have || c.val == nil {
 			if c.sym != "" {
 				c.val = m.symbolic(c.sym, vt)
@@ -2174,4 +2168,22 @@ func (m *machine) errgroupIntrinsic(target *ssa.Function, args []AV) ([]AV, bool
 		return []AV{avIface{isNil: true}}, true
 	}
 	return nil, false
+}
+
+// sequenced: the next value of a flag another goroutine flips (Harness.Sequence): successive reads see the listed
+// values, the last one for ever; once the analysed code writes the flag itself, its own value counts.
+func (m *machine) sequenced(c *cell) (AV, bool) {
+	seq, ok := m.h.Sequence[c.sym]
+	if !ok || c.sym == "" || c.written {
+		return nil, false
+	}
+	if m.nseq == nil {
+		m.nseq = map[string]int{}
+	}
+	i := m.nseq[c.sym]
+	m.nseq[c.sym] = i + 1
+	if i >= len(seq) {
+		i = len(seq) - 1
+	}
+	return avBool{seq[i]}, true
 }
